@@ -79,7 +79,7 @@ def run_unit(args):
     sys.setrecursionlimit(max(old, 60000))
     t = threading.Thread(target=lambda: out.append(_run_unit(args, box)), daemon=True)
     t.start()
-    limit = args[2].get("path_limit_s", 30)
+    limit = args[2].get("path_limit_s", 10)
     kicks = 0
     while t.is_alive():
         t.join(0.5)
@@ -98,7 +98,7 @@ def run_unit(args):
     return out[0]
 
 
-def _confirm_hang(mod_name, unit, inputs, limit_s=20):
+def _confirm_hang(mod_name, unit, inputs, limit_s=12):
     """re-run the body on the REAL package with these inputs in a subprocess; True if it does not finish"""
     import subprocess
 
@@ -193,19 +193,19 @@ def _run_unit(args, box=None):
         except core.PathLimit as ex:
             res["inconclusive"] = f"PathLimit: {ex}"
         res["stats"] = eng.stats.as_dict()
-        for inp in eng.timeouts[:3]:
-            if inp is not None and _confirm_hang(mod_name, unit, inp):
-                res["violations"].append({"sig": "call-does-not-return", "label": "call-does-not-return", "detail": None, "inputs": H.jsonable(inp), "confirmed": True, "via": "watchdog+subprocess"})
-                break
-        else:
-            if eng.timeouts:
-                res["inconclusive"] = f"{len(eng.timeouts)} path(s) exceeded the per-path time limit in the symbolic run but finish on the real package"
         for cf in eng.cross_faults:
             res["engine_faults"].append({"note": "second solver disagrees", **cf})
         # replay the solver's counterexamples on the genuine package
         seen = set(v["sig"] for v in res["violations"])
         for cex in eng.cexs:
-            fails, robs, err = H.run_real(body, real, shape, cex.inputs)
+            eng.path_started = time.time()  # the watchdog also guards replays
+            try:
+                fails, robs, err = H.run_real(body, real, shape, cex.inputs)
+            except core.PathTimeout:
+                eng.timeouts.append(cex.inputs)
+                continue
+            finally:
+                eng.path_started = None
             if fails:
                 for label, detail in fails:
                     sg = _sig(label, detail)
@@ -219,6 +219,13 @@ def _run_unit(args, box=None):
                 res["engine_faults"].append(
                     {"inputs": H.jsonable(cex.inputs), "label": cex.label, "note": "solver model does not reproduce on the real package", "err": err}
                 )
+        for inp in eng.timeouts[:3]:
+            if inp is not None and _confirm_hang(mod_name, unit, inp):
+                res["violations"].append({"sig": "call-does-not-return", "label": "call-does-not-return", "detail": None, "inputs": H.jsonable(inp), "confirmed": True, "via": "watchdog+subprocess"})
+                break
+        else:
+            if eng.timeouts:
+                res["inconclusive"] = f"{len(eng.timeouts)} path(s) exceeded the per-path time limit in the symbolic run but finish on the real package"
     except BaseException as ex:  # noqa: BLE001 - worker must always report
         res["inconclusive"] = f"harness error: {type(ex).__name__}: {ex}\n{traceback.format_exc()[-1500:]}"
     res["wall_s"] = round(time.time() - t0, 2)
